@@ -354,7 +354,8 @@ fn c06_wire(seed: u64, rep: &Report) -> Result<(), String> {
         }
         qn += 1;
         let qid = format!("k.q{}", qn);
-        let _ = c.query(&format!("SELECT * FROM other {}", tag("k", &qid, "")), 8000);
+        // (a timed-out read would leave the connection one reply behind: give the scenario up instead)
+        c.query(&format!("SELECT * FROM other {}", tag("k", &qid, "")), 20_000).map_err(|(m, e)| format!("statement after refused SET SHARD: {:?} {}", e, summarize(&m)))?;
         sent.push((qid, cur, "after_refused_set_shard".into(), -1));
     }
     let arr = arrivals(&cell);
